@@ -15,6 +15,8 @@ DECO = {"": "%s", "/": "%s/", "/.": "%s/.", "/..": "%s/..", "/nx-child": "%s/nx-
 OPS = {"open_rdonly": ("proc_open", O["RDONLY"] | O["NONBLOCK"]), "open_path": ("proc_open", O["PATH"]), "open_dir": ("proc_open", O["RDONLY"] | O["DIRECTORY"] | O["NONBLOCK"]),
        "open_follow_path": ("proc_open_follow", O["PATH"]), "open_follow_dir": ("proc_open_follow", O["PATH"] | O["DIRECTORY"]), "readlink": ("proc_readlink", 0),
        "open_follow_nf_path": ("proc_open_follow", O["PATH"] | O["NOFOLLOW"]), "open_follow_nf_rdonly": ("proc_open_follow", O["RDONLY"] | O["NONBLOCK"] | O["NOFOLLOW"]),
+       "open_excl": ("proc_open", O["EXCL"] | O["RDONLY"] | O["NONBLOCK"]), "open_follow_excl": ("proc_open_follow", O["EXCL"] | O["RDONLY"] | O["NONBLOCK"]),
+       "open_follow_creat_excl": ("proc_open_follow", O["CREAT"] | O["EXCL"] | O["RDWR"]),
        "open_creat": ("proc_open", O["CREAT"] | O["RDWR"]), "open_follow_creat": ("proc_open_follow", O["CREAT"] | O["RDWR"]), "open_tmpfile": ("proc_open", O["TMPFILE"] | O["RDWR"])}
 SKIP = {"kmsg", "kcore", "sysrq-trigger", "kpagecount", "kpageflags", "kpagecgroup", "kallsyms", "pagemap", "mem", "clear_refs"}
 
